@@ -13,7 +13,7 @@
 (*         Bounds / Feat / Anchor2 themselves.                             *)
 (***************************************************************************)
 EXTENDS GeomFeatures, TLC, Json
-CONSTANTS Tier               \* "quick" | "thorough"
+CONSTANTS Tier               \* "quick" | "thorough" | "cov" (a small sub-universe of both, run with -coverage: every action is taken)
 VARIABLES kind, toks, pc, shape, sb, feat, anch
 vars == <<kind, toks, pc, shape, sb, feat, anch>>
 
@@ -75,7 +75,8 @@ PolyPool  == {L(<<L(RectCCW(0, 0, 1, 1))>>), L(<<L(<<P(2, 0), P(3, 0), P(2, 2)>>
 MPolys    == {K("MultiPolygon", L(<<a>>)) : a \in PolyPool}
              \cup {K("MultiPolygon", L(<<x[1], x[2]>>)) : x \in {y \in PolyPool \X PolyPool : y[1] # y[2]}}
              \cup {K("MultiPolygon", L(<<x[1], x[2], x[3]>>)) : x \in {y \in PolyPool \X PolyPool \X PolyPool : y[1] # y[2] /\ y[2] # y[3] /\ y[1] # y[3]}}
-Cases == Stamps \cup Intervals \cup Points \cup Boxes \cup Lines2 \cup Lines3 \cup MPoints \cup Polys \cup PolysH \cup MLines \cup MPolys
+Cases == IF Tier = "cov" THEN Stamps \cup Intervals \cup Points \cup PolysH \cup MPolys
+         ELSE Stamps \cup Intervals \cup Points \cup Boxes \cup Lines2 \cup Lines3 \cup MPoints \cup Polys \cup PolysH \cup MLines \cup MPolys
 
 (* ---- the machine ---- *)
 NoShape == [kind |-> "", parts |-> <<>>]
